@@ -248,7 +248,7 @@ def explore(ctx, name, driver, progs, mode='dfs', pb=2, max_exec=20000, runs=0, 
     if max_steps:
         cmd += ' --max-steps %d' % max_steps
     cmd += ' --time-budget %d' % int(tmo * 0.85)
-    cmd += ' ' + extra
+    cmd += ' ' + extra + ' ' + EXTRA_ALL[0]
     t0 = time.time()
     rc, o = sh(cmd, tmo=tmo + 30)
     m = re.search(r'XVSUMMARY (\{.*\})', o)
@@ -380,6 +380,7 @@ def write_replay(ctx, tag, driver, module, consts, diag, num, extra_args=''):
     return p
 
 
+EXTRA_ALL = ['']   # extra driver arguments applied to every exploration and replay while set (C03: --race)
 POST = {}   # driver -> post-processing of raw traces (applied to explorations by the property module and to replays here)
 
 
@@ -411,6 +412,7 @@ def replay(ctx, path, steps=False):
 # ---------------------------------------------------------------------------------------------
 # verdicts
 def check_histories(ctx, name, driver, module, consts, xs, known_preds=(), extra_args=''):
+    extra_args = (extra_args + ' ' + EXTRA_ALL[0]).strip()
     """validate; every rejected execution is confirmed by an immediate replay; known findings are matched"""
     res = validate(ctx, name, module, xs, consts)
     kfs = match_known_batch(ctx, driver, res['trace'], res['rejected'], set(known_preds), extra_args, name) if known_preds else {}
